@@ -1326,6 +1326,15 @@ def install_models(I):
     M["core::slice::[T]::last_mut"] = last
     M["core::slice::[T]::first"] = lambda I, a, f: (some(slice_of(I, a[0]).at(0)) if slice_of(I, a[0]).len else none())
 
+    def unwrap_or(I, a, f):
+        x = deref(a[0])
+        if isinstance(x, Agg) and x.variant in ("Some", "Ok"):
+            return x.items[0]
+        if isinstance(x, Agg) and x.variant in ("None", "Err"):
+            return a[1]
+        raise Unanalysable("unwrap_or on %r" % (x,))
+    M["core::option::Option::unwrap_or"] = unwrap_or
+    M["core::result::Result::unwrap_or"] = unwrap_or
     M["core::option::Option::is_some"] = lambda I, a, f: isinstance(deref(a[0]), Agg) and deref(a[0]).variant == "Some"
     M["core::option::Option::is_none"] = lambda I, a, f: isinstance(deref(a[0]), Agg) and deref(a[0]).variant == "None"
     M["core::result::Result::is_ok"] = lambda I, a, f: isinstance(deref(a[0]), Agg) and deref(a[0]).variant == "Ok"
